@@ -16,7 +16,7 @@ HARNESS_I = ["vcr/issuer/zz_verif_c11i_test.go"]
 HARNESSES = [(PKG, HARNESS, "c11"), (PKG_V, HARNESS_V, "c11v"), (PKG_A, HARNESS_A, "c11a"), (PKG_I, HARNESS_I, "c11i")]
 
 REQUIRED = ["entries_injective", "einv_fresh", "bit_set_get", "bit_total", "served_list_signed_and_fresh", "list_signed_in_same_transaction",
-            "sign_failure_is_atomic", "store_read_fault_never_accepts", "each_entry_judged_by_its_own_list", "fact_verify_soft_fail_scope", "fact_update_upserts_all_columns", "fact_revoke_credential_statements", "set_monotone", "served_bit_never_cleared", "revoke_idempotent", "revoked_forever_network", "revocation_before_credential",
+            "sign_failure_is_atomic", "refresh_iff_expired_or_too_old", "too_old_external_list_is_fetched", "fact_status_list_refresh_tree", "store_read_fault_never_accepts", "each_entry_judged_by_its_own_list", "fact_verify_soft_fail_scope", "fact_update_upserts_all_columns", "fact_revoke_credential_statements", "set_monotone", "served_bit_never_cleared", "revoke_idempotent", "revoked_forever_network", "revocation_before_credential",
             "revocation_event_stored_or_retried", "redelivered_revocation_effective", "fact_ambassador_transient_errors",
             "first_revocation_entry_is_first_relevant", "issuer_revoke_status_list_effective", "issuer_network_revocation_accepted",
             "fact_issuer_ambassador_store_sites", "issuer_only", "stored_revocations_accepted", "network_revocation_is_by_issuer", "forged_revocations_rejected",
@@ -37,7 +37,7 @@ def scenario_ops(ops, i):
     return "\n".join(ops[k:i + 1]) + "\n"
 
 
-def oracle(ctx, ops, impl, max_index, min_left_min):
+def oracle(ctx, ops, impl, max_index, min_left_min, max_age=900):
     """direct property checks on the implementation's own output lines"""
     issued = {}        # (node, list, idx) -> line   (per scenario)
     issued_lists = set()   # (node, list) lists that exist on a node (an entry was handed out)
@@ -46,6 +46,8 @@ def oracle(ctx, ops, impl, max_index, min_left_min):
     seen_revoked = set()  # (node, list, idx) a verify on that node answered revoked
     hosted_valid = {}     # foreign url -> union of the bits of every valid revocation list ever hosted there in this scenario
     hosted_now = {}       # foreign url -> what it serves now
+    clock = 0             # virtual seconds since the scenario started (sum of the ticks)
+    first_stored = {}     # (node, foreign url) -> clock of the first successful download (gorm keeps created_at of the first insert)
     last_dl = {}          # (verifier node, list name of the other node) -> revoked set of the hosting node at the last successful download
     cached_foreign = {}   # (node, url, idx) -> True while a valid list with that bit was downloaded and the host has not served another valid list since
     stats = Counter()
@@ -64,7 +66,10 @@ def oracle(ctx, ops, impl, max_index, min_left_min):
         node = op.get("node", 0)
         if line.startswith("panic:") or " panic:" in line:
             report("C11:panic", f"operation {kind} panicked: {line[:200]}", i)
+        if kind == "tick":
+            clock += op.get("secs", 0)
         if kind == "reset":
+            clock, first_stored = 0, {}
             issued_lists = set()
             issued, revoked, served, seen_revoked, hosted_valid, hosted_now, cached_foreign, last_dl = {}, {}, {}, set(), {}, {}, {}, {}
         elif kind == "host":
@@ -195,6 +200,17 @@ def oracle(ctx, ops, impl, max_index, min_left_min):
                 name = f"n{lst['node']}/{lst.get('issuer','')}/{lst.get('page',0)}" if lst["node"] >= 0 else "raw:" + lst.get("raw", "")
                 key = (node, name, int(s["idx"]))
                 if lst["node"] < 0:
+                    url = lst.get("raw", "")
+                    asked = ("raw:" + url) in line.split("dl=")[1]
+                    fs = first_stored.get((node, url))
+                    if not asked and (fs is None or clock - fs > max_age):
+                        report("C11:stale-external-list-not-refreshed-after-max-age",
+                               f"node {node}, {url}: " + ("no record yet" if fs is None else f"first stored {clock - fs} s ago (> {max_age} s)") +
+                               f", host serves kind={hosted_now.get(url, {}).get('kind')}; the verification did not ask the host; answer {v}", i)
+                    if asked and fs is None and hosted_now.get(url, {}).get("kind") in ("ok", "noexp", "suspension"):
+                        first_stored[(node, url)] = clock
+                    if asked and fs is not None:
+                        stats["external-list-refreshes"] += 1
                     k3 = (node, lst.get("raw", ""), int(s["idx"]))
                     if v == "revoked":
                         cached_foreign[k3] = True
@@ -617,7 +633,7 @@ def run(ctx):
     impl, model, bad = ctx.compare(impl_p, model_p)
     ops = ctx.read_lines(ops_p)
 
-    stats, obad = oracle(ctx, ops, impl, max_index, min_left // 60)
+    stats, obad = oracle(ctx, ops, impl, max_index, min_left // 60, (facts or {}).get("maxAgeExternal", 900))
     unknown = 0
     for sig, what, i in obad:
         if ctx.violation(sig, what + f" (op line {i})", sig.split(":")[1] + ".jsonl", scenario_ops(ops, i)):
